@@ -113,7 +113,10 @@ def impl_tower(req):
             client.handlers[ev](data)
             n = t.number_of_bells
             strokes = [t.get_stroke(Bell.from_number(b)).is_hand() for b in range(1, n + 1)]
-            held = [t._assigned_users.get(Bell.from_number(b)) for b in range(1, 17)]
+            try:        # (a private field: when it is renamed, who-holds-what is still judged through `mine`)
+                held = [t._assigned_users.get(Bell.from_number(b)) for b in range(1, 17)]
+            except AttributeError:
+                held = None
             mine = [[t.is_bell_assigned_to(Bell.from_number(b), name) for b in range(1, 17)] for name in req["names"]]
             views.append({"size": n, "strokes": strokes, "held": held, "mine": mine})
         return {"views": views}
@@ -130,7 +133,8 @@ def impl_page(req):
         except page_parser.TowerNotFoundError:
             got = None
         fetched = implrun.HTTP.log[0][0] if implrun.HTTP.log else None
-        return {"fixed": page_parser._fix_url(req["url"]), "extract": got, "fetched": fetched}
+        fix = getattr(page_parser, "_fix_url", None)
+        return {"fixed": fix(req["url"]) if fix else None, "extract": got, "fetched": fetched}
     finally:
         implrun.HTTP.routes = []
 
@@ -219,9 +223,12 @@ class C20(Prop):
 
     def compare(self, req, ir, mr):
         if req["k"] == "page":
-            if ir["fixed"] != mr["fixed"] or ir["extract"] != mr["extract"]:
+            if (ir["fixed"] is not None and ir["fixed"] != mr["fixed"]) or ir["extract"] != mr["extract"]:
                 return f"impl={ir} model={mr}"
             return None
+        if req["k"] == "tower" and any(v.get("held") is None for v in ir.get("views", [])):
+            strip = lambda r: {"views": [{k: x for k, x in v.items() if k != "held"} for v in r["views"]]}  # noqa: E731
+            ir, mr = strip(ir), strip(mr)
         return super().compare(req, ir, mr)
 
     def tag(self, req, reply):
@@ -242,6 +249,9 @@ class C20(Prop):
         if req["k"] == "tower":
             want = spec_view(req["msgs"])
             for i, (a, b) in enumerate(zip(reply["views"], want)):
+                if a.get("held") is None:
+                    b = {k: x for k, x in b.items() if k != "held"}
+                    a = {k: x for k, x in a.items() if k != "held"}
                 if a != b:
                     key = next(k for k in a if a[k] != b[k])
                     return (f"after message {i} ({req['msgs'][i]}) the view's {key} is {a[key]}, the history implies "
